@@ -12,8 +12,8 @@ import (
 	"sort"
 
 	"verif/sim/core"
-	"verif/sim/ref"
 	"verif/sim/props"
+	"verif/sim/ref"
 )
 
 type violationOut struct {
